@@ -90,6 +90,8 @@ pub struct Session {
     pub new_peer_msgs: usize,
     ps_rx: mpsc::Receiver<PeerConnectionMessage>,
     pub requests_seen: Vec<&'static str>,
+    /// man in the middle: sees the kind of each request and the answers the server produced for it, returns what the puller receives
+    pub mitm: Option<Box<dyn FnMut(&'static str, Vec<Answer>) -> Vec<Answer>>>,
 }
 
 #[derive(Debug, Clone, PartialEq)]
@@ -132,6 +134,7 @@ impl Session {
             new_peer_msgs: 0,
             ps_rx,
             requests_seen: vec![],
+            mitm: None,
         }
     }
 
@@ -160,7 +163,12 @@ impl Session {
     /// deliver the oldest pending query to the server (real serving code) and queue its answers
     pub fn deliver_query(&mut self, server: &mut SimNode) -> Result<bool, Hung> {
         if let Some(q) = self.pending_queries.pop_front() {
+            let kind = query_kind(&q.query);
             let answers = self.side.serve(server, q)?;
+            let answers = match self.mitm.as_mut() {
+                Some(f) => f(kind, answers),
+                None => answers,
+            };
             for a in answers {
                 self.trace.push(format!(
                     "a{}:{}{}{}",
